@@ -24,6 +24,20 @@ def matrix_programs():
         for ct in ["int", "long", "float", "bit", "char", "boolean", "string"]:
             progs.append("function main() -> void { %s}" % "".join("echo((%s) %s); " % (ct, v) for v in vs))
         progs.append("function main() -> void { %s x = %s; x++; echo(x); x--; x--; echo(x); }" % (t, vs[0]))
+    # evaluation order and single evaluation: side-effecting operands, arguments, array literal elements, indices, initialisers
+    side = "function tick(string s, int v) -> int { echo(s); return v; }\n"
+    progs += [side + "function main() -> void { int[] a = {tick(\"e0\", 1), tick(\"e1\", 2), tick(\"e2\", 3)}; echo(a[0] + a[1] + a[2]); }",
+              side + "function main() -> void { int i = 0; int[] a = {i++, i++, i++}; echo(i); echo(a[0]); echo(a[2]); }",
+              side + "function main() -> void { long[] a = {tick(\"x\", 1), 5L}; float[] f = {tick(\"y\", 2), 2.5f}; echo(a[0]); echo(f[0]); }",
+              side + "function main() -> void { string[] s = {\"p\" + tick(\"z\", 1), \"q\"}; echo(s[0]); }",
+              side + "function main() -> void { echo(tick(\"l\", 1) + tick(\"r\", 2) * tick(\"m\", 3)); }",
+              side + "function first(int[] xs) -> int { return xs[0]; }\nfunction main() -> void { echo(first({tick(\"u0\", 4), tick(\"u1\", 5)})); }",
+              side + "function mk() -> int[] { return {tick(\"r0\", 6), tick(\"r1\", 7)}; }\nfunction main() -> void { int[] a = mk(); echo(a[1]); }",
+              side + "function firstS(string[] xs) -> string { return xs[0]; }\nfunction main() -> void { echo(firstS({\"k\" + tick(\"s0\", 1), \"m\"})); int[] b = {0, 0}; b = {tick(\"as0\", 8), 9}; echo(b[0]); }",
+              side + "function main() -> void { int[] a = {10, 20, 30}; echo(a[tick(\"i\", 1)]); a[tick(\"j\", 2)] = tick(\"v\", 7); echo(a[2]); }",
+              side + "function add(int x, int y) -> int { return x + y; }\nfunction main() -> void { echo(add(tick(\"a1\", 1), tick(\"a2\", 2))); }",
+              side + "function main() -> void { boolean b = (tick(\"c1\", 1) > 0) && (tick(\"c2\", 0) > 0) || (tick(\"c3\", 1) > 0); echo(b); }",
+              side + "function main() -> void { int i = 0; while (tick(\"w\", i) < 2) { i = i + 1; } for (int j = tick(\"fi\", 0); j < tick(\"fc\", 2); j = j + tick(\"fu\", 1)) { echo(j); } }"]
     return progs
 
 
